@@ -81,6 +81,14 @@ impl<T> Drop for Object<T> {
     fn drop(&mut self) {
         if let Some(obj) = self.obj.take() {
             if let Some(pool) = self.pool.upgrade() {
+                if pool.is_closed() {
+                    // A closed pool takes nothing back: the object is dropped
+                    // right away instead of sitting in the queue where a
+                    // `get()` that obtained its permit before `close()` could
+                    // still pick it up.
+                    let _ = pool.size.fetch_sub(1, Ordering::Relaxed);
+                    return;
+                }
                 {
                     let mut queue = pool.queue.lock().unwrap();
                     queue.push(obj);
